@@ -94,7 +94,11 @@ def run(module, cfg, wd=None, workers=None, simulate=None, depth=None, coverage=
     with open(os.path.join(wd, cfgname), 'w') as f:
         f.write(cfg)
     meta = os.path.join(wd, 'meta_%d' % (int(time.time() * 1e6) % 1000000000))
-    cmd = ['java', '-XX:+UseParallelGC', '-Xss16m']
+    # TLC unpacks its standard modules into java.io.tmpdir (one directory per run): keep that
+    # inside the scratch directory, which is removed at exit
+    jt = os.path.join(wd, 'jtmp')
+    os.makedirs(jt, exist_ok=True)
+    cmd = ['java', '-XX:+UseParallelGC', '-Xss16m', '-Djava.io.tmpdir=' + jt]
     cmd += java_opts or []
     cmd += ['-cp', JAR_CP, 'tlc2.TLC', '-metadir', meta, '-noGenerateSpecTE',
             '-workers', str(workers or NCPU), '-config', cfgname]
@@ -177,8 +181,11 @@ def must_pass(r, what):
 def sany(files, wd=None):
     wd = wd or workdir('sany-')
     bad = []
+    jt = os.path.join(wd, 'jtmp')
+    os.makedirs(jt, exist_ok=True)
     for f in files:
-        p = subprocess.run(['java', '-DTLA-Library=' + TLAPS_LIB, '-cp', JAR_CP, 'tla2sany.SANY',
+        p = subprocess.run(['java', '-Djava.io.tmpdir=' + jt, '-DTLA-Library=' + TLAPS_LIB,
+                            '-cp', JAR_CP, 'tla2sany.SANY',
                             os.path.basename(f)],
                            cwd=wd, stdout=subprocess.PIPE, stderr=subprocess.STDOUT)
         out = p.stdout.decode('utf-8', 'replace')
